@@ -394,7 +394,41 @@ func VerifyLemma(L *Loaded, name string, ct *Contract) (res *FuncResult) {
 	for _, cl := range ct.Requires {
 		st.Assume(fr.evalClauseWith(cl, lookupWith(vals), st, nil))
 	}
-	if strings.HasSuffix(ct.Induction, " general") {
+	if strings.HasSuffix(ct.Induction, " strong") {
+		// strong (course-of-values) induction: the hypothesis holds at every smaller non-negative value
+		// of v, for all values of the other parameters:
+		// forall others, m: (0 <= m && m < v && requires[m]) ==> ensures[m]
+		iv := strings.TrimSuffix(ct.Induction, " strong")
+		v, ok := vals[iv]
+		if !ok || v.T.Sort != SInt {
+			fail("lemma %s: induction variable %s is not an integer parameter", name, iv)
+		}
+		var decl []string
+		hv := map[string]Val{}
+		mv := Term{S: "ih!m", Sort: SInt}
+		decl = append(decl, "(ih!m Int)")
+		for i, p := range cfn.Params {
+			if p.Name() == iv {
+				hv[iv] = TV(mv)
+				continue
+			}
+			n := fmt.Sprintf("ih!%d", i)
+			srt := vc.specialSort(p.Type())
+			decl = append(decl, fmt.Sprintf("(%s %s)", n, srt))
+			hv[p.Name()] = TV(Term{S: n, Sort: srt})
+		}
+		vc.pushScope()
+		var reqs, enss []Term
+		for _, cl := range ct.Requires {
+			reqs = append(reqs, fr.evalClauseWith(cl, lookupWith(hv), st, nil))
+		}
+		for _, cl := range ct.Ensures {
+			enss = append(enss, fr.evalClauseWith(cl, lookupWith(hv), st, nil))
+		}
+		guard := And(Le(IntLit(0), mv), Lt(mv, v.T))
+		body := vc.popScope(Implies(And(append([]Term{guard}, reqs...)...), And(enss...)))
+		st.Assume(T(SBool, "(forall (%s) %s)", strings.Join(decl, " "), body.S))
+	} else if strings.HasSuffix(ct.Induction, " general") {
 		// induction hypothesis quantified over the other parameters:
 		// forall others: (v >= 1 && requires[v-1]) ==> ensures[v-1]
 		iv := strings.TrimSuffix(ct.Induction, " general")
